@@ -2,6 +2,7 @@ package main
 
 import (
 	"bufio"
+	"bytes"
 	"fmt"
 	"io"
 	"math/rand"
@@ -592,6 +593,52 @@ func init() {
 			if !try(proto, mut, "mutation of "+c.Describe()) {
 				rep.Distinct = len(distinct)
 				return
+			}
+		}
+		// keys at and beyond memcached's 250-byte limit, in every command and inside pipelined
+		// batches of quiet gets (the proxy passes them on; the backend refuses them)
+		for _, kl := range []int{249, 250, 251, 252, 256, 300, 1000, 65535} {
+			long := bytes.Repeat([]byte{'K'}, kl)
+			batches := [][]Command{
+				{{Kind: "get", Keys: []GetKey{{Key: long, Opaque: 1, Quiet: true}, {Key: []byte("k"), Opaque: 2}}}},
+				{{Kind: "get", Keys: []GetKey{{Key: []byte("k"), Opaque: 1, Quiet: true}, {Key: long, Opaque: 2, Quiet: true}, {Key: []byte("j"), Opaque: 3, Quiet: true}}, NoopEnd: true, NoopOpq: 4}},
+				{{Kind: "get", Keys: []GetKey{{Key: long, Opaque: 1}}}, {Kind: "noop", Opaque: 9}},
+				{{Kind: "set", Key: long, Data: []byte("v"), Opaque: 1}, {Kind: "noop", Opaque: 9}},
+				{{Kind: "delete", Key: long, Opaque: 1}}, {{Kind: "touch", Key: long, Exptime: 5, Opaque: 1}}, {{Kind: "gat", Key: long, Exptime: 5, Opaque: 1}},
+				{{Kind: "append", Key: long, Data: []byte("v"), Opaque: 1}},
+			}
+			for _, b := range batches {
+				for _, proto := range []string{"bin", "text"} {
+					var data []byte
+					ok := true
+					for _, c := range b {
+						if proto == "text" && (c.Kind == "gat" || kl > 2000) {
+							ok = false
+							break
+						}
+						data = append(data, c.Encode(proto)...)
+					}
+					if !ok {
+						continue
+					}
+					rep.Distribution["long-key-frames"]++
+					what := fmt.Sprintf("%d-byte key in %s", kl, b[0].Describe()[:12])
+					// on a live connection that stays open: answered or closed, never left waiting
+					crumb("a request with a long key on a live connection", map[string]interface{}{"proto": proto, "what": what})
+					lst := GetStack(StackCfg{Orca: "l1only", Locked: "none", Bits: 0, L1: "std"})
+					lcl := lst.Dial("main", proto)
+					_, lend := lcl.Feed(data, 2*time.Second)
+					lcl.Close()
+					rep.Distribution["long-key-live:"+lend]++
+					if lend == "hang" {
+						rep.Violations = append(rep.Violations, Violation{What: fmt.Sprintf("%s, %s: the server neither answered the requests that follow nor closed the connection within 2 s", what, proto), Signature: "long-key-hang:" + proto,
+							Replay: map[string]interface{}{"proto": proto, "input": canonN(700, data), "what": what}})
+					}
+					if !try(proto, data, what) {
+						rep.Distinct = len(distinct)
+						return
+					}
+				}
 			}
 		}
 		// text lines with awkward fields
